@@ -51,6 +51,13 @@ def expr(e):
     if isinstance(e, ast.Name):
         return '(EVar %s)' % q(e.id)
     if isinstance(e, ast.Attribute):
+        if e.attr in PROP_GET:
+            # a READ of a @property of the class registered by the 'props' target of this file: the call of its
+            # translated getter (receiver resolved by name, like methods)
+            if not isinstance(e.ctx, ast.Load):
+                raise Unsupported('property %s used as a target' % e.attr)
+            CALLS_SEEN.append('.' + e.attr)
+            return '(ECall %s [%s])' % (q('.' + e.attr), expr(e.value))
         return '(EAttr %s %s)' % (expr(e.value), q(e.attr))
     if isinstance(e, ast.BinOp) and type(e.op) in BIN:
         return '(EBin %s %s %s)' % (BIN[type(e.op)], expr(e.left), expr(e.right))
@@ -145,6 +152,8 @@ def expr(e):
 def pure(x):
     """names and attribute chains only: evaluating them twice, or not at all, cannot be observed"""
     while isinstance(x, ast.Attribute):
+        if x.attr in PROP_GET:
+            raise Unsupported('element of a display reads the property %s' % x.attr)
         x = x.value
     if not isinstance(x, ast.Name):
         raise Unsupported('element %s of a display is not a name / attribute' % ast.dump(x)[:80])
@@ -155,7 +164,8 @@ class Subst(ast.NodeTransformer):
         self.name, self.by = name, by
 
     def visit_Name(self, n):
-        return self.by if isinstance(n.ctx, ast.Load) and n.id == self.name else n
+        import copy
+        return copy.deepcopy(self.by) if isinstance(n.ctx, ast.Load) and n.id == self.name else n
 
 
 def sum_over_display(g):
@@ -244,8 +254,101 @@ def target(t):
     if isinstance(t, ast.Name):
         return '(TVar %s)' % q(t.id)
     if isinstance(t, ast.Attribute) and isinstance(t.value, ast.Name):
+        if t.attr in PROP_GET:
+            # only the plain statement `x.prop = e` is understood (stmt() prints the setter there)
+            raise Unsupported('assignment to the property %s in this form' % t.attr)
         return '(TAttr %s %s)' % (q(t.value.id), q(t.attr))
     raise Unsupported(ast.dump(t)[:200])
+
+
+# @property getters and setters of the class named by the 'props' target of the file being printed (filled by
+# generate() for that file only): name -> getter FunctionDef ; name -> (parameter, attribute, value expression)
+PROP_GET = {}
+PROP_SET = {}
+
+
+def class_properties(tree, clsname):
+    """The @property getters and @name.setter setters of the module-level class `clsname`.
+    Accepted class body: docstring, undecorated methods (ignored), getters `def p(self)` under exactly @property,
+    setters `def p(self, v)` under exactly @p.setter whose body is the single statement `self.<attr> = <expr>` with
+    <attr> not a property and <expr> reading only self, v, min, max.  Anything else raises Unsupported.  No other
+    class of the module may define a member of the same name (a subclass could override the property)."""
+    cls = [n for n in tree.body if isinstance(n, ast.ClassDef) and n.name == clsname]
+    if len(cls) != 1:
+        raise Unsupported('class %s not found (or defined twice)' % clsname)
+    cls = cls[0]
+    if cls.keywords or cls.decorator_list:
+        raise Unsupported('class %s has a metaclass / decorator' % clsname)
+    getters, setters = {}, {}
+    for m in cls.body:
+        if isinstance(m, ast.Expr) and isinstance(m.value, ast.Constant) and isinstance(m.value.value, str):
+            continue
+        if not isinstance(m, ast.FunctionDef):
+            raise Unsupported('member of %s: %s' % (clsname, ast.dump(m)[:80]))
+        if m.name in ('__getattr__', '__getattribute__', '__setattr__', '__new__'):
+            raise Unsupported('%s defines %s' % (clsname, m.name))
+        if not m.decorator_list:
+            continue
+        if len(m.decorator_list) != 1:
+            raise Unsupported('decorators of %s.%s' % (clsname, m.name))
+        d = m.decorator_list[0]
+        a = m.args
+        if a.vararg or a.kwarg or a.kwonlyargs or a.posonlyargs or a.defaults:
+            raise Unsupported('signature of %s.%s' % (clsname, m.name))
+        if isinstance(d, ast.Name) and d.id == 'property':
+            if [x.arg for x in a.args] != ['self'] or m.name in getters:
+                raise Unsupported('getter %s.%s' % (clsname, m.name))
+            getters[m.name] = m
+        elif isinstance(d, ast.Attribute) and d.attr == 'setter' and isinstance(d.value, ast.Name) \
+                and d.value.id == m.name and m.name in getters and m.name not in setters:
+            if len(a.args) != 2 or a.args[0].arg != 'self' or a.args[1].arg == 'self':
+                raise Unsupported('setter %s.%s' % (clsname, m.name))
+            setters[m.name] = m
+        else:
+            raise Unsupported('decorator of %s.%s' % (clsname, m.name))
+    out_set = {}
+    for name, m in setters.items():
+        par = m.args.args[1].arg
+        if len(m.body) != 1 or not isinstance(m.body[0], ast.Assign) or len(m.body[0].targets) != 1:
+            raise Unsupported('setter %s.%s is not a single assignment' % (clsname, name))
+        t = m.body[0].targets[0]
+        if not (isinstance(t, ast.Attribute) and isinstance(t.value, ast.Name) and t.value.id == 'self') \
+                or t.attr in getters:
+            raise Unsupported('setter %s.%s does not assign a plain attribute of self' % (clsname, name))
+        for n in ast.walk(m.body[0].value):
+            if isinstance(n, ast.Name) and n.id not in ('self', par, 'min', 'max'):
+                raise Unsupported('setter %s.%s reads %s' % (clsname, name, n.id))
+            if isinstance(n, (ast.Lambda, ast.ListComp, ast.GeneratorExp, ast.SetComp, ast.DictComp, ast.NamedExpr)):
+                raise Unsupported('setter %s.%s: %s' % (clsname, name, type(n).__name__))
+        out_set[name] = (par, t.attr, m.body[0].value)
+    for other in ast.walk(tree):
+        if isinstance(other, ast.ClassDef) and other is not cls:
+            for m in other.body:
+                names = [m.name] if isinstance(m, (ast.FunctionDef, ast.ClassDef)) else \
+                    [x.id for t in getattr(m, 'targets', []) for x in ast.walk(t) if isinstance(x, ast.Name)] + \
+                    ([m.target.id] if isinstance(m, ast.AnnAssign) and isinstance(m.target, ast.Name) else [])
+                for nm in names:
+                    if nm in getters:
+                        raise Unsupported('class %s redefines the property %s of %s' % (other.name, nm, clsname))
+    return getters, out_set
+
+
+def property_assignment(s):
+    """`x.prop = e`  ==  the body of the setter with self := x, after binding its parameter to the value of e
+    (bound to "%prop.param", not a Python name, so that e is evaluated first and once, as in the call)"""
+    t = s.targets[0]
+    if t.attr not in PROP_SET:
+        raise Unsupported('property %s has no setter' % t.attr)
+    if not isinstance(t.value, ast.Name):
+        raise Unsupported('assignment to the property %s of %s' % (t.attr, ast.dump(t.value)[:60]))
+    par, attr, value = PROP_SET[t.attr]
+    import copy
+    tmp = '%%%s.%s' % (t.attr, par)
+    body = copy.deepcopy(value)
+    body = Subst(par, ast.Name(id=tmp, ctx=ast.Load())).visit(body)
+    body = Subst('self', ast.Name(id=t.value.id, ctx=ast.Load())).visit(body)
+    return '(SAssign [(TVar %s)] %s); (SAssign [(TAttr %s %s)] %s)' % (
+        q(tmp), expr(s.value), q(t.value.id), q(attr), expr(body))
 
 
 def stmt(s):
@@ -257,6 +360,9 @@ def stmt(s):
         return '(SAssert %s)' % expr(s.test)
     if isinstance(s, ast.Assign) and len(s.targets) == 1 and isinstance(s.targets[0], ast.Tuple):
         return '(SUnpack [%s] %s)' % ('; '.join(target(t) for t in s.targets[0].elts), expr(s.value))
+    if isinstance(s, ast.Assign) and len(s.targets) == 1 and isinstance(s.targets[0], ast.Attribute) \
+            and s.targets[0].attr in PROP_GET:
+        return property_assignment(s)
     if isinstance(s, ast.Assign):
         if len(s.targets) == 1 and isinstance(s.targets[0], ast.Name) and isinstance(s.value, ast.GeneratorExp):
             return 'SPass'  # inlined at its (single) use by InlineGen
@@ -339,11 +445,140 @@ def find_function(tree, qualname):
     return node
 
 
-def translate_function(fn, name, slice_from=None, params=None):
-    """fn: ast.FunctionDef.  slice_from: name of the variable whose first assignment starts the translated
-    slice (the statements before it are *not* translated; `params` are then the free variables)."""
+class Unroll(ast.NodeTransformer):
+    """`for v in xs: body` and `[elt for v in xs]`, where `a, b, c = xs` is the statement right before the slice and
+    neither xs nor a, b, c is rebound in the slice, are printed as body[v:=a]; body[v:=b]; body[v:=c] and
+    [elt[v:=a], elt[v:=b], elt[v:=c]].  In Python the loop mutates the objects that a, b, c also name; in the value
+    domain of Py.v (objects are values) a loop over the list would update copies, hence the unrolling over the names."""
+    def __init__(self, xs, names):
+        self.xs, self.names, self.loopvars = xs, names, set()
+
+    def over(self, it):
+        return isinstance(it, ast.Name) and it.id == self.xs
+
+    def visit_For(self, n):
+        self.generic_visit(n)
+        if not self.over(n.iter):
+            return n
+        if not isinstance(n.target, ast.Name) or n.orelse or n.target.id in self.names or n.target.id == self.xs:
+            raise Unsupported('loop over %s: target / else' % self.xs)
+        v = n.target.id
+        for m in n.body:
+            for x in ast.walk(m):
+                if isinstance(x, (ast.Break, ast.Continue, ast.Return, ast.Yield, ast.YieldFrom, ast.Lambda,
+                                  ast.FunctionDef, ast.Global, ast.Nonlocal, ast.NamedExpr)):
+                    raise Unsupported('%s inside a loop over %s' % (type(x).__name__, self.xs))
+                if isinstance(x, ast.Name) and x.id == v and not isinstance(x.ctx, ast.Load):
+                    raise Unsupported('loop variable %s rebound inside the loop over %s' % (v, self.xs))
+                if isinstance(x, (ast.comprehension,)) and any(
+                        isinstance(y, ast.Name) and y.id == v for y in ast.walk(x.target)):
+                    raise Unsupported('loop variable %s rebound by a comprehension' % v)
+        self.loopvars.add(v)
+        import copy
+        out = []
+        for a in self.names:
+            for m in n.body:
+                out.append(Subst(v, ast.Name(id=a, ctx=ast.Load())).visit(copy.deepcopy(m)))
+        return out
+
+    def visit_ListComp(self, n):
+        self.generic_visit(n)
+        if len(n.generators) == 1 and self.over(n.generators[0].iter):
+            g = n.generators[0]
+            if not isinstance(g.target, ast.Name) or g.ifs or g.is_async or g.target.id in self.names:
+                raise Unsupported('comprehension over %s' % self.xs)
+            for x in ast.walk(n.elt):
+                if isinstance(x, (ast.comprehension, ast.Lambda, ast.NamedExpr)):
+                    raise Unsupported('nested binder in a comprehension over %s' % self.xs)
+            import copy
+            return ast.List(elts=[Subst(g.target.id, ast.Name(id=a, ctx=ast.Load())).visit(copy.deepcopy(n.elt))
+                                  for a in self.names], ctx=ast.Load())
+        return n
+
+
+def slice_after_unpack(fn, xs, adapters):
+    """The statements of fn after the (unique, top-level) statement `a, b, c = xs`, with loops / list comprehensions
+    over xs unrolled over a, b, c (see Unroll).  Checked: the statement before it is
+    `xs = [cls(...) for _ in xs]` where `cls = A if t else B` (or `cls = A`) is bound once before, and A, B are
+    module-level classes deriving from `adapters` without __new__ (so a, b, c are three distinct fresh objects: a
+    mutation through one name is not seen through another); after the unpacking neither xs nor a, b, c is rebound
+    or deleted, xs is used only by the unrolled loops, and the loop variables are not used outside them."""
     body = list(fn.body)
-    if slice_from == '<while>':
+    idx = [i for i, s in enumerate(body) if isinstance(s, ast.Assign) and len(s.targets) == 1
+           and isinstance(s.targets[0], ast.Tuple) and isinstance(s.value, ast.Name) and s.value.id == xs]
+    if len(idx) != 1:
+        raise Unsupported('%d statements `a, b, c = %s` at the top level of %s' % (len(idx), xs, fn.name))
+    i = idx[0]
+    elts = body[i].targets[0].elts
+    if not all(isinstance(t, ast.Name) for t in elts):
+        raise Unsupported('targets of the unpacking of %s' % xs)
+    names = [t.id for t in elts]
+    if len(set(names)) != len(names) or xs in names:
+        raise Unsupported('names bound by the unpacking of %s are not distinct' % xs)
+    # the list is a list of fresh adapter objects
+    prev = body[i - 1] if i >= 1 else None
+    ok = (isinstance(prev, ast.Assign) and len(prev.targets) == 1 and isinstance(prev.targets[0], ast.Name)
+          and prev.targets[0].id == xs and isinstance(prev.value, ast.ListComp) and len(prev.value.generators) == 1
+          and not prev.value.generators[0].ifs and isinstance(prev.value.elt, ast.Call)
+          and isinstance(prev.value.elt.func, ast.Name))
+    if not ok:
+        raise Unsupported('the statement before the unpacking of %s is not `%s = [cls(...) for ...]`' % (xs, xs))
+    cls = prev.value.elt.func.id
+    binds = [s for s in ast.walk(fn) if isinstance(s, ast.Name) and s.id == cls and not isinstance(s.ctx, ast.Load)]
+    defs = [s for s in body[:i - 1] if isinstance(s, ast.Assign) and len(s.targets) == 1
+            and isinstance(s.targets[0], ast.Name) and s.targets[0].id == cls]
+    if len(binds) != 1 or len(defs) != 1 or any(a.arg == cls for a in fn.args.args):
+        raise Unsupported('%s is not bound exactly once before the unpacking of %s' % (cls, xs))
+    v = defs[0].value
+    classes = [v.body, v.orelse] if isinstance(v, ast.IfExp) else [v]
+    if not all(isinstance(c, ast.Name) for c in classes):
+        raise Unsupported('%s is not a class or a choice between two classes' % cls)
+    return i, names, [c.id for c in classes]
+
+
+def check_adapter_classes(tree, classes, base):
+    for c in classes:
+        d = [n for n in tree.body if isinstance(n, ast.ClassDef) and n.name == c]
+        if len(d) != 1 or d[0].keywords or d[0].decorator_list \
+                or [ast.unparse(b) for b in d[0].bases] != [base] \
+                or any(isinstance(m, ast.FunctionDef) and m.name == '__new__' for m in d[0].body):
+            raise Unsupported('%s is not a plain subclass of %s' % (c, base))
+
+
+def translate_function(fn, name, slice_from=None, params=None, after_unpack=None, tree=None):
+    """fn: ast.FunctionDef.  slice_from: name of the variable whose first assignment starts the translated
+    slice (the statements before it are *not* translated; `params` are then the free variables).
+    after_unpack = (xs, adapter base class): the slice starts after `a, b, c = xs` (see slice_after_unpack)."""
+    body = list(fn.body)
+    if after_unpack is not None:
+        xs, base = after_unpack
+        i, names, classes = slice_after_unpack(fn, xs, base)
+        check_adapter_classes(tree, classes, base)
+        un = Unroll(xs, names)
+        mod = un.visit(ast.Module(body=body[i + 1:], type_ignores=[]))
+        body = mod.body
+        # objects are values in Py.v: an adapter may only be used as the receiver of an attribute access / method
+        # call (`box_a.x`), never copied into another name, a list or an argument (no second name for one object)
+        bases = set()
+        for s in body:
+            for x in ast.walk(s):
+                if isinstance(x, ast.Attribute) and isinstance(x.value, ast.Name):
+                    bases.add(id(x.value))
+        for s in body:
+            for x in ast.walk(s):
+                if isinstance(x, ast.Name) and x.id in names and id(x) not in bases:
+                    raise Unsupported('%s is used other than as the receiver of an attribute access' % x.id)
+        for s in body:
+            for x in ast.walk(s):
+                if isinstance(x, ast.Name) and x.id == xs:
+                    raise Unsupported('%s is used other than by a loop / list comprehension over it' % xs)
+                if isinstance(x, ast.Name) and x.id in names and not isinstance(x.ctx, ast.Load):
+                    raise Unsupported('%s is rebound after the unpacking of %s' % (x.id, xs))
+                if isinstance(x, ast.Name) and x.id in un.loopvars:
+                    raise Unsupported('loop variable %s is used outside the loops over %s' % (x.id, xs))
+                if isinstance(x, (ast.arg,)) and x.arg in names + [xs]:
+                    raise Unsupported('%s is rebound by a nested function' % x.arg)
+    elif slice_from == '<while>':
         loops = [x for x in body if isinstance(x, ast.While)]
         if len(loops) != 1:
             raise Unsupported('%d while loops at the top level of %s' % (len(loops), fn.name))
@@ -489,6 +724,14 @@ TARGETS = {
         # from rule 2 on (the first statement wraps the box into an OrientedBox adapter)
         ('fun', 'compute_fixed_dimension', 'compute_fixed_dimension', {
             'slice_from': 'total', 'params': ['box', 'outer', 'top_or_left']}),
+        # the @property getters of the adapter class as methods ".sugar", ".outer", ".outer_min_content_size",
+        # ".outer_max_content_size"; in every target of this file a read `x.<property>` is a call of the getter and
+        # the statement `x.outer = e` is the body of the setter
+        ('props', 'OrientedBox', 'OrientedBox', {}),
+        # after `box_a, box_b, box_c = side_boxes` (the adapters are built before); loops over side_boxes unrolled
+        ('fun', 'compute_variable_dimension', 'compute_variable_dimension', {
+            'after_unpack': ('side_boxes', 'OrientedBox'),
+            'params': ['box_a', 'box_b', 'box_c', 'available_size']}),
     ]),
     'GenCss': ('weasyprint/css/__init__.py', [
         ('fun', 'declaration_precedence', 'declaration_precedence', {}),
@@ -514,7 +757,13 @@ def generate(repo, out_dir, only=None):
         except Exception:
             continue
         for kind, pyname, coqname, extra in targets:
-            if kind != 'fun' or extra.get('slice_from'):
+            if kind == 'props':
+                try:
+                    for g in class_properties(tree0, pyname)[0]:
+                        CALLABLE['.' + g] = (['self'], {})
+                except Unsupported:
+                    pass
+            if kind != 'fun' or extra.get('slice_from') or extra.get('after_unpack'):
                 continue
             try:
                 fn0 = find_function(tree0, pyname)
@@ -534,18 +783,41 @@ def generate(repo, out_dir, only=None):
             continue
         parts = [HEADER % src]
         table = []
+        # the properties of the class named by a 'props' target are in force for every target of this file
+        PROP_GET.clear()
+        PROP_SET.clear()
+        getters_of = {}
+        for kind, pyname, coqname, extra in targets:
+            if kind == 'props':
+                try:
+                    g, st = class_properties(tree, pyname)
+                    if set(g) & set(PROP_GET):
+                        raise Unsupported('two classes define the property %s' % sorted(set(g) & set(PROP_GET)))
+                    PROP_GET.update(g)
+                    PROP_SET.update(st)
+                    getters_of[pyname] = list(g)
+                except Unsupported as exc:
+                    errors.append(('%s:%s' % (fname, pyname), str(exc)))
+                    parts.append('(* UNSUPPORTED %s: %s *)\n' % (pyname, str(exc).replace('*)', '* )')))
         for kind, pyname, coqname, extra in targets:
             try:
-                if kind == 'fun':
+                if kind == 'props':
+                    # one translated method per getter: ".name" with the single parameter self
+                    for g in getters_of.get(pyname, []):
+                        del CALLS_SEEN[:]
+                        parts.append(translate_function(PROP_GET[g], '%s_%s' % (coqname, g)))
+                        table.append('(%s, (%s_%s_args, %s_%s_body))' % (q('.' + g), coqname, g, coqname, g))
+                elif kind == 'fun':
                     fn = find_function(tree, pyname)
                     if extra.get('calls'):
                         parts.append(translate_wrapper(fn, coqname))
                     else:
                         del CALLS_SEEN[:]
-                        parts.append(translate_function(fn, coqname, extra.get('slice_from'), extra.get('params')))
+                        parts.append(translate_function(fn, coqname, extra.get('slice_from'), extra.get('params'),
+                                                        extra.get('after_unpack'), tree))
                         for callee in sorted(set(CALLS_SEEN)):
                             check_binding(tree, fn, callee)
-                        if not extra.get('slice_from'):
+                        if not extra.get('slice_from') and not extra.get('after_unpack'):
                             key = ('.' + pyname.split('.')[-1]) if '.' in pyname else pyname
                             table.append('(%s, (%s_args, %s_body))' % (q(extra.get('call_as', key)), coqname, coqname))
                 elif kind == 'qtable':
